@@ -32,7 +32,7 @@ ASSUMPTIONS = [
     "a page with no MediaBox anywhere defaults to US Letter (documented fallback)",
     "step budget = 400 monitored events per input byte + 200000",
 ]
-PROBES = ["fault:repeat", "fault:self", "fault:ancestor", "fault:root", "fault:cross", "reversed corners", "rotate negative", "indirect attribute", "inherited from grandparent", "consumer stopped early", "page_numbers with maxpages", "eviction happened"]
+PROBES = ["walk abandoned, then repeated on the same document", "fault:repeat", "fault:self", "fault:ancestor", "fault:root", "fault:cross", "reversed corners", "rotate negative", "indirect attribute", "inherited from grandparent", "consumer stopped early", "page_numbers with maxpages", "eviction happened"]
 TIERS = {
     "quick": {"batches": 16, "runs": 700, "budget_s": 45},
     "thorough": {"batches": 128, "runs": 800, "budget_s": 900},
@@ -107,6 +107,9 @@ def gen_box(t, ctx):
 
 def norm(box):
     return (float(min(box[0], box[2])), float(min(box[1], box[3])), float(max(box[0], box[2])), float(max(box[1], box[3])))
+
+
+rescats = {}  # object number of a node with /Resources -> sorted category names of that dictionary (last built document)
 
 
 def build(t, ctx):
@@ -208,6 +211,8 @@ def reference_order(root):
         for k, v in n.attrs.items():
             eff[k] = v
             src[k] = depth
+            if k == "Resources":
+                eff["_resdef"] = n.oid  # the node whose /Resources the page gets, as a whole
         eff["_src"] = src
         if n.kind == "pages":
             for c in n.kids:
@@ -246,6 +251,7 @@ def serialise(t, ctx, root, nodes, counter):
     for i, (n, eff, d) in enumerate(order):
         page_index[n.oid] = i
     marks = {}
+    rescats.clear()
     for n in nodes.values():
         d = {b"Type": Name(b"Pages" if n.kind == "pages" else b"Page")}
         if n.parent is not None:
@@ -253,7 +259,13 @@ def serialise(t, ctx, root, nodes, counter):
         if "Resources" in n.attrs:
             k = n.attrs["Resources"]
             fd = {b"F1": fontref(k)} if not t.coin(20, 100, "font.direct") else {b"F1": docs.std_font(docs.STD14[k])}
-            d[b"Resources"] = indirect({b"Font": indirect(fd, "ind.fontdict"), b"ProcSet": [Name(b"PDF"), Name(b"Text")]}, "ind.res")
+            res = {b"Font": indirect(fd, "ind.fontdict"), b"ProcSet": [Name(b"PDF"), Name(b"Text")]}
+            # further categories, differing from node to node: a node's /Resources replaces its ancestor's as a whole
+            cats = [c for c in (b"ExtGState", b"ColorSpace", b"Properties") if t.coin(35, 100, "res.cat")]
+            for c in cats:
+                res[c] = {b"R%d" % n.oid: {b"Type": Name(c)} if c != b"ColorSpace" else Name(b"DeviceRGB")}
+            rescats[n.oid] = sorted(["Font", "ProcSet"] + [c.decode() for c in cats])
+            d[b"Resources"] = indirect(res, "ind.res")
         for key in ("MediaBox", "CropBox"):
             if key in n.attrs:
                 arr = [numv(x) for x in n.attrs[key]]
@@ -402,6 +414,8 @@ def run(tape, ctx, item=None):
                     from pdfminer.pdftypes import dict_value, resolve1
 
                     if "Resources" in eff:
+                        if sorted(dict_value(page.resources)) != rescats.get(eff["_resdef"]):
+                            devs.append(Dev("C04:resources", "page index %d: resource categories %r, the defining node (obj %d) has %r; %s" % (i, sorted(dict_value(page.resources)), eff["_resdef"], rescats.get(eff["_resdef"]), cfg)))
                         f = dict_value(dict_value(dict_value(page.resources)["Font"])["F1"])
                         if f.get("BaseFont") is None or f["BaseFont"].name != docs.STD14[eff["Resources"]].decode():
                             devs.append(Dev("C04:resources", "page index %d: font %r, expected %r; %s" % (i, f.get("BaseFont"), docs.STD14[eff["Resources"]], cfg)))
@@ -452,6 +466,31 @@ def run(tape, ctx, item=None):
                 nd, eff, d = order[i]
                 if "Resources" in eff and single_edge.get(nd.oid, 0) == 1 and sorted("".join(part.split())) != sorted(label_of(i).decode()):
                     devs.append(Dev("C04:extract_text-wrong-page", "page index %d text %r, expected %r; %s" % (i, part, label_of(i), cfg)))
+    # (d) one document object, several walks: a walk that is abandoned after k pages, then complete walks - each walk
+    #     is a function of the document alone
+    if t.coin(35, 100, "rewalk"):
+        ctx.probe("walk abandoned, then repeated on the same document")
+        k_stop = t.draw(n + 1, "rewalk.stop")
+
+        def rewalk():
+            from pdfminer.pdfdocument import PDFDocument
+            from pdfminer.pdfparser import PDFParser
+
+            doc = PDFDocument(PDFParser(BytesIO(data)), caching=caching)
+            it = PDFPage.create_pages(doc)
+            for _ in range(k_stop):
+                if next(it, None) is None:
+                    break
+            first = [p.pageid for p in PDFPage.create_pages(doc)]
+            second = [p.pageid for p in PDFPage.create_pages(doc)]
+            rest = [p.pageid for p in it]  # the abandoned walk, resumed afterwards
+            return first, second, rest
+
+        rw = guarded("create_pages", rewalk)
+        if rw is not None:
+            all_ids = [nd.oid for nd, _, _ in order]
+            if rw[0] != all_ids or rw[1] != all_ids or rw[2] != all_ids[min(k_stop, len(all_ids)) :]:
+                devs.append(Dev("C04:rewalk", "after a walk abandoned at %d pages: complete walks %r and %r, the resumed walk %r; the tree has %r; %s" % (k_stop, rw[0], rw[1], rw[2], all_ids, cfg)))
     seen = {}
     for dv in devs:
         seen.setdefault(dv.sig, dv)
